@@ -555,7 +555,7 @@ static void analyze(Case& c, int threadsBefore, int threadsAfter, int leftover, 
         viol(P, "job body finished after the queue destructor returned", "{\"job\":" + num((long long)j) + "}");
     }
     if (P.lanes) {  // lane queue reports every job to the delegate; the pairing is promised in ExecutionQueue.h
-      if (o.bs == 1 && o.be == 1 && (o.qs != 1 || o.qf != 1 || !(o.iqs < o.ibs && o.ibe < o.iqf) || o.tqs != o.tbs || o.tqf != o.tbs))
+      if (o.bs == 1 && o.be == 1 && (o.qs != 1 || o.qf != 1 || !(o.iqs < o.ibs && o.ibe < o.iqf)))
         viol(P, "queueJobStarted/queueJobFinished not exactly once around the job body",
              "{\"job\":" + num((long long)j) + ",\"started\":" + num(o.qs) + ",\"finished\":" + num(o.qf) + "}");
     } else if (o.qs != o.qf) {
@@ -615,6 +615,7 @@ static void analyze(Case& c, int threadsBefore, int threadsAfter, int leftover, 
     bool cancelMayHit = !complBeforeCancel;
     bool fdFault = P.fdSlots >= 0;
     bool relaxed = P.injected && o.perr > 0;
+    if (relaxed) bump("injected_management_errors");
     if (p.kind != LK_Child) {
       bump("spawn_error_launches");
       if (o.ps == 1 && o.pid != -1) LV("spawn of a non-runnable program reported a pid");
@@ -698,6 +699,12 @@ static void analyze(Case& c, int threadsBefore, int threadsAfter, int leftover, 
           if (line == "ENV{") { in = true; sawBegin = true; continue; }
           if (line == "}ENV") { in = false; sawEnd = true; continue; }
           if (in) {
+            std::string un;
+            for (size_t i = 0; i < line.size(); ++i) {
+              if (line[i] == '\\' && i + 1 < line.size()) { un += line[i + 1] == 'n' ? '\n' : line[i + 1]; ++i; }
+              else un += line[i];
+            }
+            line.swap(un);
             size_t eq = line.find('=');
             if (eq != std::string::npos && !env.count(line.substr(0, eq))) env[line.substr(0, eq)] = line.substr(eq + 1);
           } else if (line.rfind("CTLFD=", 0) == 0) ctl = line.substr(6);
@@ -896,13 +903,13 @@ struct Gen {
     L.isEnv = true;
     L.spec = "E,x0";
     L.exitCode = 0;
-    static const char* keys[] = {"QM_A", "QM_B", "QM_SHARED", "PATH", "HOME", "QM_EMPTY", "QM_EQ", "LANG", "QM_LONG"};
+    static const char* keys[] = {"QM_A", "QM_B", "QM_SHARED", "PATH", "HOME", "QM_EMPTY", "QM_EQ", "LANG", "QM_LONG", "QM_NL", "QM_BS"};
     std::set<std::string> used;
     unsigned n = (unsigned)rng.below(6);
     for (unsigned i = 0; i < n; ++i) {
-      std::string k = keys[rng.below(9)];
+      std::string k = keys[rng.below(11)];
       if (!used.insert(k).second) continue;
-      std::string v = k == "QM_EMPTY" ? "" : k == "QM_EQ" ? "a=b=c" : k == "QM_LONG" ? std::string(3000, 'z') : "req-" + num((long long)rng.below(1000));
+      std::string v = k == "QM_EMPTY" ? "" : k == "QM_EQ" ? "a=b=c" : k == "QM_LONG" ? std::string(3000, 'z') : k == "QM_NL" ? "line1\nQM_FAKE=line2\n" : k == "QM_BS" ? "a\\b\\n" : "req-" + num((long long)rng.below(1000));
       L.env.push_back({k, v});
     }
     // queue-owned LLBUILD_BUILD_ID / LLBUILD_LANE_ID in the requested environment must lose
